@@ -154,3 +154,55 @@ Theorem C07_pooled_buffer_refuted :
        = Some (presp bytes (prun bytes bytes new_exec run_exec output p [r1])).
 Proof. exact pooled_buffer_refuted. Qed.
 Print Assumptions C07_pooled_buffer_refuted.
+
+(* (f) Several engines in one process, each with a function table (configuration) and a template directory
+   of its own: compileDir translates every file with the function table of ITS engine.  In two processes
+   that load ANY engines es, es' in any order, an engine with configuration c whose directory holds the same
+   file under the requested name answers the request alike - whatever the other engines are, whatever
+   they were asked before. *)
+Theorem C07_other_engines_independent :
+  forall (src tpl cfg : Type) (translate : cfg -> src -> tpl)
+         (exec_state : Type) (new_exec : tpl -> gdata -> exec_state)
+         (run_exec : exec_state -> exec_state) (output : exec_state -> option bytes)
+         (es es' : list (cfg * list (bytes * src))) (i j : nat) (c : cfg) (files files' : list (bytes * src))
+         (ts ts' : list (bytes * tpl)) (st st' : list bytes) (rs rs' : list request) (n : bytes) (d : gdata),
+    nth_error es i = Some (c, files) -> nth_error es' j = Some (c, files') ->
+    lookup n files = lookup n files' ->
+    nth_error (load_all src tpl cfg translate es) i = Some ts ->
+    nth_error (load_all src tpl cfg translate es') j = Some ts' ->
+    resp tpl (run tpl exec_state new_exec run_exec output (mk_engine tpl ts st) (rs ++ [mk_request n d]))
+    = resp tpl (run tpl exec_state new_exec run_exec output (mk_engine tpl ts' st') (rs' ++ [mk_request n d])).
+Proof. exact other_engines_independent. Qed.
+Print Assumptions C07_other_engines_independent.
+
+(* a table of finished translations that belongs to the process and is keyed by the source text alone makes
+   it false: the engine in which `motto` is a template function stores another template for `page` when an
+   engine in which `motto` is a variable of the page data was loaded before it *)
+Theorem C07_translation_memo_refuted :
+  exists (e0 e1 : list bytes * list (bytes * list bytes)) n,
+    lookup n (nth 1 (load_all_memo (list bytes) (list bytes) (list bytes) fn_translate names_eqb [] [e0; e1]) [])
+    <> lookup n (nth 0 (load_all_memo (list bytes) (list bytes) (list bytes) fn_translate names_eqb [] [e1]) [])
+    /\ lookup n (nth 1 (load_all (list bytes) (list bytes) (list bytes) fn_translate [e0; e1]) [])
+       = lookup n (nth 0 (load_all (list bytes) (list bytes) (list bytes) fn_translate [e1]) []).
+Proof. exact translation_memo_refuted. Qed.
+Print Assumptions C07_translation_memo_refuted.
+
+(* (g) Page data that already holds objects of the engine's own model.  C07_input_untouched is about a
+   conversion that copies EVERY cell of the caller; a conversion that hands out some of the caller's cells
+   unchanged (a *Array / *Map the caller got from pugjs.Convert before the repair F-C07-d; a []Object
+   wrapped without copying) lets a template sort the caller's list - on a well-formed store, while the
+   copying conversion leaves the same store untouched under the same operations. *)
+Theorem C07_shared_object_refuted :
+  exists (keep : nat -> bool) (g : store) (root : mval) (fuel : nat) (ops : list op),
+    wf_store g = true /\
+    gstore_after g (render_mem_keep keep g root fuel ops) <> g
+    /\ gstore_after g (render_mem g root fuel ops) = g.
+Proof. exact shared_object_refuted. Qed.
+Print Assumptions C07_shared_object_refuted.
+
+(* ... and a conversion that keeps nothing is the conversion of C07_input_untouched *)
+Theorem C07_copy_all_untouched : forall (gstore : store) (root : mval) (fuel : nat) (ops : list op),
+  render_mem_keep (fun _ => false) gstore root fuel ops = render_mem gstore root fuel ops
+  /\ gstore_after gstore (render_mem_keep (fun _ => false) gstore root fuel ops) = gstore.
+Proof. exact copy_all_untouched. Qed.
+Print Assumptions C07_copy_all_untouched.
